@@ -378,6 +378,21 @@ fn check_loaded(m: &mut Machine, a: &Abs, fmt: Fmt, obs: &Obs, p: &Probe, st: &m
                 st.canvas_px += 256 * 192;
                 st.checks += 1;
             }
+            // "every RAM page as seen by ... the display": the screen bank hidden at load time must
+            // show the file's bytes as well once the program flips bit 3 (no CPU write in between)
+            if a.is128 && a.latch & 0x20 == 0 && bad == 0 {
+                let other = if a.screen_page() == 5 { 7 } else { 5 };
+                quiet_io(m, |m| m.out(0x7FFD, a.latch ^ 0x08));
+                m.run_frames(2);
+                let bad2 = canvas_mismatches(&m.emu.screen_buffer().px, &a.pages[other]);
+                if bad2 != 0 {
+                    fail(&mut f, "canvas:hidden-bank", format!("after flipping bit 3 of the latch {} canvas pixels differ from the decode of screen bank {} as stored in the file", bad2, other), jobj! {"pixels"=>bad2,"bank"=>other});
+                }
+                if count {
+                    st.canvas_px += 256 * 192;
+                    st.checks += 1;
+                }
+            }
         }
         Obs::Ay { tone } => {
             let ay = a.ay.as_ref().unwrap();
